@@ -9,6 +9,7 @@ import (
 	"errors"
 	"fmt"
 	"net"
+	"os"
 	"path/filepath"
 	"strings"
 	"sync"
@@ -63,7 +64,12 @@ type evlog struct {
 
 func newLog() *evlog { l := &evlog{}; l.cond = sync.NewCond(&l.mu); return l }
 
+var dbgT0 = time.Now()
+
 func (l *evlog) add(r rec) {
+	if os.Getenv("VERIFH_C16_DEBUG") != "" {
+		fmt.Fprintf(os.Stderr, "T %8.3fms %s %s %s sid=%d\n", float64(time.Since(dbgT0).Microseconds())/1000, r.T, r.Op, r.Res, r.Sid)
+	}
 	l.mu.Lock()
 	l.recs = append(l.recs, r)
 	l.cond.Broadcast()
@@ -130,7 +136,20 @@ type executor struct {
 	waitsMu sync.Mutex
 	waits   int // Wait goroutines not yet returned
 	// what the harness itself has seen (only used to choose between deadline and grace, and by await)
-	liveSid int // session of the last successful Start while no stop/lose/cut followed, else 0
+	liveSid  int // session of the last successful Start while no stop/lose followed, else 0
+	liveConn int // its connection number
+}
+
+// live: the session the harness believes to be up (0 = none): the last successful Start's,
+// unless a Stop or lose followed or the runtime end has dropped its connection since.
+func (e *executor) live() int {
+	if e.liveSid == 0 {
+		return 0
+	}
+	if s := e.rt.session(e.liveConn); s == nil || s.fc.isClosed() {
+		return 0
+	}
+	return e.liveSid
 }
 
 func (e *executor) nclients() int { e.mu.Lock(); defer e.mu.Unlock(); return e.clients }
@@ -215,10 +234,10 @@ func runHistory(in HistIn, dir string, tag string, tm timing) (recs []rec) {
 		go func() {
 			// returns once the stub's close handler for this client has run to completion
 			c.UserOnCloseWait(context.Background())
+			lg.add(rec{T: "notify", Sid: sid}) // recorded before await can see it
 			e.mu.Lock()
 			e.notified[sid] = true
 			e.mu.Unlock()
-			lg.add(rec{T: "notify", Sid: sid})
 		}()
 	}
 	st, err := stub.New(e.pl,
@@ -280,12 +299,7 @@ func runHistory(in HistIn, dir string, tag string, tm timing) (recs []rec) {
 				r.Res, blocked = "blocked", true
 			case serr == nil:
 				r.Res = "ok"
-				e.liveSid = r.Sid
-				if sc.Kind == "cut" {
-					if s := rt.session(r.Conn); s != nil && s.fc.isClosed() {
-						e.liveSid = 0
-					}
-				}
+				e.liveSid, e.liveConn = r.Sid, r.Conn
 			default:
 				r.Res, r.Kind = "err", errKind(serr)
 			}
@@ -341,7 +355,7 @@ func runHistory(in HistIn, dir string, tag string, tm timing) (recs []rec) {
 		case "await":
 			lg.add(rec{T: "call", Op: "await", I: i})
 			r := rec{T: "ret", Op: "await", I: i, Res: "all"}
-			if !e.await(e.liveSid, tm.deadline) {
+			if !e.await(e.live(), tm.deadline) {
 				r.Res = "timeout"
 			}
 			lg.add(r)
